@@ -119,6 +119,8 @@ fn main() {
                 m: flagval(&flags, "--m"),
                 k: flagval(&flags, "--k"),
                 misuse: flags.contains(&"--misuse"),
+                vm_only: flags.contains(&"--vm-only"),
+                shared_actor: flags.contains(&"--shared-actor"),
             };
             match engine.as_str() {
                 "orswot" => replay::<eng_orswot::OrswotEng>(dump, out, &known, opts),
